@@ -176,25 +176,25 @@ fn run_cell(c: &Cell, pki: &Pki, rt: &tokio::runtime::Runtime, st: &mut Stats) {
                 let ok_req = served.exchange.as_ref().map(|e| e.error.is_none() && r1::decode(&e.body).is_ok()).unwrap_or(false);
                 if m.code != 0 || !ok_req {
                     st.outcome("accepted-but-garbled");
-                    st.violate(format!("garbled:{}", cls_suffix), describe, c.to_json());
+                    st.violate(format!("garbled:{}", cls_suffix), describe.clone(), c.to_json());
                 } else {
                     st.outcome("accepted");
                 }
             }
             Err(_) => {
                 st.outcome("valid-server-rejected");
-                st.violate(format!("valid-server-rejected:{}", cls_suffix), describe, c.to_json());
+                st.violate(format!("valid-server-rejected:{}", cls_suffix), describe.clone(), c.to_json());
             }
         }
     } else {
         match &result {
             Ok(_) => {
                 st.outcome("unauthenticated-server-accepted");
-                st.violate(format!("unauthenticated-server-accepted:{}", cls_suffix), describe, c.to_json());
+                st.violate(format!("unauthenticated-server-accepted:{}", cls_suffix), describe.clone(), c.to_json());
             }
             Err(_) if app_bytes > 0 => {
                 st.outcome("request-leaked");
-                st.violate(format!("request-bytes-reached-unauthenticated-server:{}", cls_suffix), describe, c.to_json());
+                st.violate(format!("request-bytes-reached-unauthenticated-server:{}", cls_suffix), describe.clone(), c.to_json());
             }
             Err(_) => st.outcome("rejected"),
         }
